@@ -46,6 +46,7 @@ class Arena:
     def __init__(self, sess):
         self.sess = sess
         self.victims = {}
+        self.custom_interrupt = {}
         self.helper = None
         self.struck = []
 
@@ -103,7 +104,11 @@ class Arena:
             if kind == 'cancel':
                 task.cancel('struck')
             elif kind == 'interrupt':
-                self.helper.do(self._set(flag))
+                custom = self.custom_interrupt.get(name)
+                if custom is not None:
+                    custom()        # the participant has its own way of being interrupted
+                else:
+                    self.helper.do(self._set(flag))
             elif kind == 'close':
                 scope.do(self._raise())
             else:
